@@ -193,6 +193,7 @@ func Keys(r *ev.Run, tier string) (evals, nontrivial int64) {
 	})
 
 	evals += PointLookups(r, h, "C19")
+	evals += ListQueries(r)
 
 	// heights: per-byte exhaustive; key injectivity and read-back through every client's iterators
 	var heights []clienttypes.Height
